@@ -448,14 +448,58 @@ func (e *enc) loopEnv(h *ssa.BasicBlock, phiOverride map[*ssa.Phi]Val) *Env {
 func (e *enc) loopClauses(li *loopInfo) (inv []*Clause, dec *Clause) {
 	if e.fc != nil {
 		for _, c := range e.fc.Loops[li.ord] {
-			if c.Kind == "decreases" {
+			switch c.Kind {
+			case "decreases":
 				dec = c
-			} else {
+			case "exhaustive":
+			default:
 				inv = append(inv, c)
 			}
 		}
 	}
 	return
+}
+
+// exhaustiveChecks: for a loop declared exhaustive, every edge that leaves the loop from a block other than the loop
+// header (a break, a return, a goto out of the body) must be unreachable.
+func (e *enc) exhaustiveChecks(b *ssa.BasicBlock) {
+	if e.fc == nil {
+		return
+	}
+	for h, li := range e.loops {
+		if !li.blocks[b] || b == h {
+			continue
+		}
+		var cl *Clause
+		for _, c := range e.fc.Loops[li.ord] {
+			if c.Kind == "exhaustive" {
+				cl = c
+			}
+		}
+		if cl == nil {
+			continue
+		}
+		leaves := false
+		var conds []string
+		for _, s := range b.Succs {
+			if !li.blocks[s] {
+				leaves = true
+				conds = append(conds, e.edgeCond(b, s))
+			}
+		}
+		if len(b.Succs) == 0 && e.reach[b] != "false" { // return / panic inside the loop
+			leaves = true
+			conds = append(conds, e.reach[b])
+		}
+		if !leaves {
+			continue
+		}
+		saved := e.curReach
+		e.curReach = "true"
+		e.oblige("assert", fmt.Sprintf("loop#%d exhaustive %s b%d", li.ord, clauseName(cl), b.Index), cl.Props,
+			"the loop is left only through its own condition (every element is visited): no break/return out of the body", not(or(conds...)), token.NoPos)
+		e.curReach = saved
+	}
 }
 
 // autoInvariants: for a header phi of the form phi = [c, phi + k] (k > 0 constant): phi >= c.
@@ -529,6 +573,14 @@ func (e *enc) loopHead(h *ssa.BasicBlock, li *loopInfo, entryPhi func(*ssa.Phi) 
 	}
 	for i, g := range e.autoInvariants(h, func(p *ssa.Phi) string { return over[p].T }) {
 		e.oblige("invariant-init", fmt.Sprintf("loop#%d auto%d", li.ord, i), nil, "counter lower bound", g, token.NoPos)
+	}
+	if e.fc != nil {
+		for _, c := range e.fc.Loops[li.ord] {
+			if c.Kind == "exhaustive" {
+				// marker (keeps the label alive when the loop has no leaving edge to check); the edges are checked in exhaustiveChecks
+				e.oblige1("assert", fmt.Sprintf("loop#%d exhaustive %s declared", li.ord, clauseName(c)), c.Props, "the loop is declared exhaustive", "true", token.NoPos)
+			}
+		}
 	}
 	// 2. havoc
 	if e.discover || e.loopWrites[h]["*"] {
@@ -650,6 +702,7 @@ func (e *enc) instrs(b *ssa.BasicBlock, phiFn func(*ssa.Phi) Val) {
 		e.instr(in)
 	}
 	e.exitSt[b] = copyState(e.state)
+	e.exhaustiveChecks(b)
 	for _, s := range b.Succs {
 		if isBackEdge(b, s) && e.reach[b] != "false" {
 			e.backEdge(b, s)
